@@ -81,10 +81,23 @@ MAP = [
  ("S85", "C06", "B", "accumulator-reopen-keeps-child-untouched", "OpenPortal(Empty), DeleteNode(child root), OpenPortal(Empty) again with the same key/child/root", "first run: missed"),
  ("S86", "C08", "A", "causal-parents-sorted-by-receipt-ref-only", "an envelope citing one receipt in both roles (TickReceipt and ContractInverseTarget) and a second submission listing the same parents in another order", "first run: missed"),
  ("S87", "C08", "B", "ticketed-ingest-goes-straight-to-the-head-inbox", "an intent ingested and committed through plain ingest, then the same witnessed submission staged through ingest_ticketed_invocation and another pass", "first run: missed"),
+ ("S88", "C12", "A", "cbor-8-byte-width-threshold-2-pow-28", "a 9-byte head (additional-info 27) whose argument lies in [2^28, 2^32): no byte string shorter than 9 bytes reaches it", "first run: caught (C12.R3 cbor-width-threshold agreement between write_major and read_len)"),
+ ("S89", "C12", "A", "edict-reencode-gate-replaced-by-inline-width-check", "a non-minimal head whose argument is exactly 23, 255, 65535 or 2^32-1, one width too wide", "first run: caught (C12.R4 reencode-gate-kept:decode_canonical_cbor_v1)"),
+ ("S90", "C13", "A", "abi-need-checks-idx-plus-n", "a canonical 8-byte length head whose declared length is within idx of 2^64 (5b ff..ff)", "first run: caught (C13.R5 canonical:need)"),
+ ("S91", "C13", "A", "edict-map-arm-loses-cumulative-reservation", "128 nested 32000-entry map headers placed in first-key position: every open level pre-allocates at once (262 MB from a 32 KB input); both versions return a typed error", "first run: missed"),
+ ("S92", "C19", "A", "trig-results-wrapped-without-subnormal-flush", "a normal angle within ~5 ULP of f32::MIN_POSITIVE: the interpolated sine is subnormal", "first run: caught (C19.R1 F32Scalar constructor monopoly)"),
+ ("S93", "C20", "A", "memory-put-verified-resident-fast-path", "put X, then put_verified(hash(X), Y) with Y != X on the memory tier (re-introduces the defect repaired by 541d54c)", "first run: caught (C20.R1 memory:put_verified:compare-dominates-ok)"),
 ]
 SRC_PREFIX = {k: "out1" for k in ("S09", "S10", "S11", "S12", "S13", "S14", "S15", "S16", "S17", "S18", "S19", "S20", "S21", "S22", "S23", "S24", "S25", "S26", "S27", "S28")}
 SRC_PREFIX.update({k: "out2" for k in ("S29", "S30", "S31", "S32", "S33", "S34", "S37", "S38", "S41", "S42", "S45", "S46")})
+SRC_DIR = {"S88": "R6C12a", "S89": "R6C12b", "S90": "R6C13b", "S91": "R6C13a", "S92": "R6C19", "S93": "R6C20"}
 CHANGE = {
+ "S88": "`dec_value::read_len` folds read and minimal-width check into one table; the 8-byte row says 0x1000_0000 where 2^32 is meant",
+ "S89": "`decode_canonical_cbor_v1` drops decode-then-re-encode-and-compare for inline checks; the width check uses `<` where `<=` is needed",
+ "S90": "`dec_value::need` tests `idx + n > bytes.len()` instead of `bytes.len().saturating_sub(idx) < n`",
+ "S91": "`Decoder::value` hoists the shared container prefix into `container_length`; the map arm loses `reserve_nodes(child_nodes)` (arrays keep theirs)",
+ "S92": "`F32Scalar::{sin,cos,sin_cos}` wrap trig outputs with a new private `from_trig` (NaN and -0 handled, subnormal flush forgotten) instead of `F32Scalar::new`",
+ "S93": "`MemoryTier::put_verified` returns Ok for an already-resident hash before hashing the supplied bytes",
  "S09": "`checkpoint_for` replaced by a lazy per-head capture inside the commit loop: a second head on the same worldline overwrites the saved pre-pass frontier with one that already contains the first head's commit",
  "S10": "receipt-correlation undo entry is pushed after the index update, so `previous_pending_submission` is read after the removal and rollback never re-inserts the submission",
  "S11": "`rewrite_filesystem_segments_after_truncation` returns early when no decoded record would be dropped, leaving a torn partial record in place",
@@ -167,6 +180,8 @@ CHANGE = {
 res = json.load(open("/tmp/seeds/seed_results.json")) if os.path.exists("/tmp/seeds/seed_results.json") else {}
 for sid, prop, var, slug, needs, first in MAP:
     src = "/tmp/seeds/%s-%s/%s" % (SRC_PREFIX.get(sid, "out"), prop, var) if sid < "S80" else "/tmp/seeds/out-R5%s/%s" % (prop, var)
+    if sid in SRC_DIR:  # round 6: one change per agent, several agents per property
+        src = "/tmp/seeds/out-%s/A" % SRC_DIR[sid]
     if not os.path.exists(src + "/patch.diff"):
         print("missing", src); continue
     dst = "%s/%s-%s-%s" % (V, sid, prop.lower(), slug)
@@ -177,6 +192,8 @@ for sid, prop, var, slug, needs, first in MAP:
     if os.path.exists(src + "/notes.md"):
         shutil.copy(src + "/notes.md", dst + "/agent_notes.md")
     log = "/tmp/seeds/confirm-logs/%s%s-%s.log" % ("r5-" if sid >= "S80" else "r4-" if sid >= "S69" else "r3-" if sid >= "S49" else "", prop, var)
+    if sid in SRC_DIR:
+        log = "/tmp/seeds/confirm-logs/r6-%s.log" % SRC_DIR[sid]
     confirmed, conf_txt = False, "confirmation pending"
     if os.path.exists(log):
         t = open(log).read()
